@@ -181,7 +181,7 @@ def make_dist(oid, n_edge, supplied=False, tiers=("quick", "thorough"), xyz=Fals
                       bounds=f"{N_NODE} nodes, {N_FACE} faces, {n_edge} edges; every assignment of end nodes and adjacent faces; coordinates arbitrary (pairwise >= 3 deg apart)",
                       stubs=["sin, cos, arccos uninterpreted; deg2rad exact (x*pi/180)"],
                       assumptions=["coordinates of distinct elements differ by >= 3 degrees in lon and lat (genericity, so that a wrong operand changes the value)"],
-                      tiers=tiers, validate=_validate)
+                      tiers=tiers, validate=_validate, portfolio=(4, 15))      # nonlinear + UF: z3's run time depends on the random seed (2 s .. > 600 s)
 
 
 def _pick2(pair, lon, lat):
@@ -298,7 +298,7 @@ def make_diff(oid, kind, op, lead, n_edge, normalize=False, tiers=("quick", "tho
     return Obligation(oid, f"{op} of {kind}-centred data, leading dims {tuple(lead)}, {n_edge} symbolic edges, normalize={normalize}",
                       setup, run, replay, exact=True, functions=FUNCS,
                       bounds=f"{N_NODE} nodes, {N_FACE} faces, {n_edge} edges with arbitrary end nodes / adjacent faces (boundary allowed), data in [-10,10], distances in [0.01,3]",
-                      tiers=tiers, cost=cost, validate=_validate)
+                      tiers=tiers, cost=cost, validate=_validate, portfolio=(4, 15))
 
 
 def _r(v):
